@@ -73,6 +73,7 @@ CHECKS["C01"] = {
         {"name": "regress", "run": "^TestC01Regress$", "kind": "plain"},
         {"name": "hostile-near-miss", "run": "^TestC01HostileNearMiss$", "kind": "plain", "shards": 8},
         {"name": "streams", "run": "^TestC01Streams$", "kind": "rapid", "checks": {"quick": 12000, "thorough": 400000}, "shards": {"quick": 8, "thorough": 16}},
+        {"name": "loopback", "run": "^TestC01Loopback$", "kind": "rapid", "checks": {"quick": 600, "thorough": 24000}, "shards": {"quick": 4, "thorough": 16}},
     ],
 }
 
@@ -227,6 +228,7 @@ CHECKS["C20"] = {
         {"name": "regress", "run": "^TestC20Regress$", "kind": "plain"},
         {"name": "typed", "run": "^TestC20Typed$", "kind": "rapid", "checks": {"quick": 8000, "thorough": 240000}, "shards": {"quick": 8, "thorough": 16}},
         {"name": "wild-nopanic", "run": "^TestC20Wild$", "kind": "rapid", "checks": {"quick": 6000, "thorough": 160000}, "shards": {"quick": 4, "thorough": 16}},
+        {"name": "wild-relations", "run": "^TestC20Relations$", "kind": "rapid", "checks": {"quick": 4000, "thorough": 160000}, "shards": {"quick": 4, "thorough": 16}},
     ],
 }
 
